@@ -85,6 +85,13 @@ func execC14(c CaseC14) *Outcome {
 		}
 	}
 	no := false
+	// an instance only remembers the last store opened per address: close every store ourselves
+	var opened []iface.Store
+	defer func() {
+		for _, s := range opened {
+			_ = s.Close()
+		}
+	}()
 	acFor := func(t TupleC14) accesscontroller.ManifestParams {
 		if len(t.List) == 0 {
 			return nil
@@ -195,25 +202,28 @@ func execC14(c CaseC14) *Outcome {
 			o.Labels = append(o.Labels, "create-refused")
 			continue
 		}
+		opened = append(opened, s)
 		if s.Address().String() != addrA.String() {
 			return fail("Create(%q) returned a store at %s, DetermineAddress said %s", name, s.Address(), addrA)
 		}
 		if s.Type() != t.Type {
 			return fail("Create(%q, %s) returned a %s store", name, t.Type, s.Type())
 		}
-		if _, err := a.Create(ctx, name, t.Type, &orbitdb.CreateDBOptions{AccessController: acFor(t), Replicate: &no}); err == nil {
+		if sx, err := a.Create(ctx, name, t.Type, &orbitdb.CreateDBOptions{AccessController: acFor(t), Replicate: &no}); err == nil {
+			opened = append(opened, sx)
 			return fail("Create(%q) over an existing local database was accepted without overwrite", name)
 		}
 		yes := true
 		if s2, err := a.Create(ctx, name, t.Type, &orbitdb.CreateDBOptions{AccessController: acFor(t), Replicate: &no, Overwrite: &yes}); err != nil {
 			return fail("Create(%q) with overwrite was refused: %v", name, err)
-		} else if s2.Address().String() != addrA.String() {
+		} else if opened = append(opened, s2); s2.Address().String() != addrA.String() {
 			return fail("Create(%q) with overwrite returned another address", name)
 		}
 		sb, err := w.Peers[1].DB.Open(ctx, addrA.String(), &orbitdb.CreateDBOptions{Replicate: &no})
 		if err != nil {
 			return fail("Open(%s) on another peer failed: %v", addrA, err)
 		}
+		opened = append(opened, sb)
 		if sb.Type() != t.Type {
 			return fail("Open(%s) on another peer gives a %s store, the database was created as %s", addrA, sb.Type(), t.Type)
 		}
@@ -229,11 +239,14 @@ func execC14(c CaseC14) *Outcome {
 			return fail("Open(%s) on another peer shows write list %v, the database was created with %v", addrA, g, wl)
 		}
 		yesLocal := true
-		if _, err := w.Peers[2].DB.Open(ctx, addrA.String(), &orbitdb.CreateDBOptions{Replicate: &no, LocalOnly: &yesLocal}); err == nil {
+		if sc, err := w.Peers[2].DB.Open(ctx, addrA.String(), &orbitdb.CreateDBOptions{Replicate: &no, LocalOnly: &yesLocal}); err == nil {
+			opened = append(opened, sc)
 			return fail("a local-only Open of %s on a peer that never saw the database was accepted", addrA)
 		}
-		if _, err := a.Open(ctx, addrA.String(), &orbitdb.CreateDBOptions{Replicate: &no, LocalOnly: &yesLocal}); err != nil {
+		if sl, err := a.Open(ctx, addrA.String(), &orbitdb.CreateDBOptions{Replicate: &no, LocalOnly: &yesLocal}); err != nil {
 			return fail("a local-only Open of %s on the peer that created it was refused: %v", addrA, err)
+		} else {
+			opened = append(opened, sl)
 		}
 		if special {
 			o.NonTrivial = true
